@@ -401,7 +401,7 @@ func (w *World) listOrder(owner, kind string, n int) []int {
 	if n < 2 {
 		return idx
 	}
-	s := w.ch.S("order/" + owner + "/" + kind)
+	s := w.ch.S("order/" + w.ctx + "/" + owner + "/" + kind) // keyed by the listing group too: another group's scan must not advance this stream
 	switch s.Pick(3, 2, 3) {
 	case 0:
 	case 1:
